@@ -33,3 +33,109 @@ fn new_state_is_well_formed() {
         }
     }
 }
+
+use super::mqttbytes::v5::{Filter, PingResp};
+
+/// C10: `handle_incoming_packet` / `handle_outgoing_packet` surface every received packet exactly once and in wire
+/// order, and announce exactly the packets they hand to the network — over every short history of requests and
+/// broker packets (solicited, unsolicited, repeated, ids above the limit), manual acks on and off.
+// @native props=C10 tier=quick fn=v5::MqttState::handle_incoming_packet+handle_outgoing_packet
+#[test]
+fn events_mirror_the_wire_exactly() {
+    let name = "rumqttc::v5::MqttState::handle_incoming_packet#events_in_wire_order_one_outgoing_per_write";
+    #[derive(Clone, Copy, Debug)]
+    enum A { OutPub(u8), OutSub, OutUnsub, OutPing, InPub(u8, u16), InAck(u16), InRec(u16), InRel(u16), InComp(u16), InSubAck, InPingResp, InConnAck }
+    let acts = [A::OutPub(0), A::OutPub(1), A::OutPub(2), A::OutSub, A::OutUnsub, A::OutPing, A::InPub(0, 0), A::InPub(1, 7), A::InPub(2, 9), A::InPub(2, 65535),
+                A::InAck(1), A::InAck(2), A::InAck(9), A::InRec(1), A::InRec(2), A::InRel(9), A::InRel(3), A::InComp(1), A::InComp(2), A::InSubAck, A::InPingResp, A::InConnAck];
+    fn kind_id(p: &Packet) -> (u8, u16) {
+        match p {
+            Packet::Publish(x) => (1, x.pkid), Packet::PubAck(x) => (2, x.pkid), Packet::PubRec(x) => (3, x.pkid), Packet::PubRel(x) => (4, x.pkid),
+            Packet::PubComp(x) => (5, x.pkid), Packet::Subscribe(x) => (6, x.pkid), Packet::Unsubscribe(x) => (7, x.pkid), Packet::PingReq(_) => (8, 0),
+            Packet::Disconnect(_) => (9, 0), _ => (0, 0),
+        }
+    }
+    fn okind_id(o: &Outgoing) -> (u8, u16) {
+        match o {
+            Outgoing::Publish(k) => (1, *k), Outgoing::PubAck(k) => (2, *k), Outgoing::PubRec(k) => (3, *k), Outgoing::PubRel(k) => (4, *k), Outgoing::PubComp(k) => (5, *k),
+            Outgoing::Subscribe(k) => (6, *k), Outgoing::Unsubscribe(k) => (7, *k), Outgoing::PingReq => (8, 0), Outgoing::Disconnect => (9, 0),
+            Outgoing::AwaitAck(k) => (10, *k), Outgoing::PingResp => (11, 0),
+        }
+    }
+    let depth: usize = std::env::var("VERIF_EVT_DEPTH").ok().and_then(|s| s.parse().ok()).unwrap_or(3);
+    let n = acts.len();
+    let mut cases = 0u64;
+    let mut fail: Option<String> = None;
+    'outer: for manual in [false, true] {
+        for code in 0..n.pow(depth as u32) {
+            cases += 1;
+            let seq: Vec<A> = (0..depth).map(|k| acts[(code / n.pow(k as u32)) % n]).collect();
+            let mut st = MqttState::new(2, manual);
+            for (k, a) in seq.iter().enumerate() {
+                let before: Vec<Event> = st.events.iter().cloned().collect();
+                let (incoming, res): (Option<Incoming>, Result<Option<Packet>, StateError>) = match a {
+                    A::OutPub(q) => { let qos = match q { 0 => QoS::AtMostOnce, 1 => QoS::AtLeastOnce, _ => QoS::ExactlyOnce }; (None, st.handle_outgoing_packet(Request::Publish(Publish::new("t", qos, vec![k as u8], None)))) }
+                    A::OutSub => (None, st.handle_outgoing_packet(Request::Subscribe(Subscribe::new(Filter::new("a/b", QoS::AtLeastOnce), None)))),
+                    A::OutUnsub => (None, st.handle_outgoing_packet(Request::Unsubscribe(Unsubscribe::new("a/b", None)))),
+                    A::OutPing => (None, st.handle_outgoing_packet(Request::PingReq)),
+                    A::InPub(q, id) => { let qos = match q { 0 => QoS::AtMostOnce, 1 => QoS::AtLeastOnce, _ => QoS::ExactlyOnce }; let mut p = Publish::new("x", qos, vec![1u8], None); p.pkid = *id; let i = Incoming::Publish(p); (Some(i.clone()), st.handle_incoming_packet(i)) }
+                    A::InAck(id) => { let i = Incoming::PubAck(PubAck::new(*id, None)); (Some(i.clone()), st.handle_incoming_packet(i)) }
+                    A::InRec(id) => { let i = Incoming::PubRec(PubRec::new(*id, None)); (Some(i.clone()), st.handle_incoming_packet(i)) }
+                    A::InRel(id) => { let i = Incoming::PubRel(PubRel::new(*id, None)); (Some(i.clone()), st.handle_incoming_packet(i)) }
+                    A::InComp(id) => { let i = Incoming::PubComp(PubComp::new(*id, None)); (Some(i.clone()), st.handle_incoming_packet(i)) }
+                    A::InSubAck => { let i = Incoming::SubAck(SubAck { pkid: 1, return_codes: vec![SubscribeReasonCode::Success(QoS::AtMostOnce)], properties: None }); (Some(i.clone()), st.handle_incoming_packet(i)) }
+                    A::InPingResp => { let i = Incoming::PingResp(PingResp); (Some(i.clone()), st.handle_incoming_packet(i)) }
+                    A::InConnAck => { let i = Incoming::ConnAck(ConnAck { session_present: false, code: ConnectReturnCode::Success, properties: None }); (Some(i.clone()), st.handle_incoming_packet(i)) }
+                };
+                let after: Vec<Event> = st.events.iter().cloned().collect();
+                let desc = format!("manual_acks={} history={:?} (step {})", manual, seq, k);
+                if after.len() < before.len() || after[..before.len()] != before[..] {
+                    fail = Some(format!("input=[{}] detail=[earlier events were changed]", desc));
+                    break 'outer;
+                }
+                let mut new = after[before.len()..].to_vec();
+                if let Some(i) = &incoming {
+                    // the received packet is surfaced first, exactly once
+                    if new.first() != Some(&Event::Incoming(i.clone())) {
+                        fail = Some(format!("input=[{}] detail=[received {:?} but the events added were {:?}]", desc, i, new));
+                        break 'outer;
+                    }
+                    new.remove(0);
+                }
+                let written = match &res { Ok(Some(p)) => Some(kind_id(p)), _ => None };
+                let announced: Vec<(u8, u16)> = new.iter().filter_map(|e| match e { Event::Outgoing(o) => Some(okind_id(o)), _ => None }).collect();
+                if new.len() != announced.len() {
+                    fail = Some(format!("input=[{}] detail=[unexpected extra Incoming events {:?}]", desc, new));
+                    break 'outer;
+                }
+                let ok = match written {
+                    Some(w) => announced == vec![w],
+                    // nothing is written: nothing may be announced, except the documented AwaitAck of a parked publish
+                    None => announced.is_empty() || (announced.len() == 1 && announced[0].0 == 10 && matches!(res, Ok(None))),
+                };
+                if !ok {
+                    fail = Some(format!("input=[{}] detail=[packet handed to the network: {:?}; outgoing notifications added: {:?}]", desc, res.as_ref().map(|o| o.as_ref().map(kind_id)).map_err(|e| format!("{:?}", e)), new));
+                    break 'outer;
+                }
+                // replies to inbound QoS flows
+                if let (Some(Incoming::Publish(p)), Ok(out)) = (&incoming, &res) {
+                    let exp = if manual || p.qos == QoS::AtMostOnce { None } else if p.qos == QoS::AtLeastOnce { Some((2u8, p.pkid)) } else { Some((3u8, p.pkid)) };
+                    if out.as_ref().map(kind_id) != exp {
+                        fail = Some(format!("input=[{}] detail=[inbound publish QoS {:?} id {} answered with {:?}, expected {:?}]", desc, p.qos, p.pkid, out.as_ref().map(kind_id), exp));
+                        break 'outer;
+                    }
+                }
+                if res.is_err() && incoming.is_none() && !matches!(a, A::OutPing) {
+                    fail = Some(format!("input=[{}] detail=[a user request failed: {:?}]", desc, res.err()));
+                    break 'outer;
+                }
+            }
+        }
+    }
+    match fail {
+        None => println!("VERIF-OBLIGATION {} props=C10 bound=\"all histories of {} steps over {} request/packet kinds, inflight limit 2, manual acks on/off\" cases={} ok", name, depth, n, cases),
+        Some(f) => {
+            println!("VERIF-FAIL {} props=C10 {}", name, f);
+            panic!("{}", f);
+        }
+    }
+}
